@@ -362,7 +362,11 @@ def clane_runs(ctx):
         trc += t
         wordc += w
         ownc += o
-    mism += coq_judge(ctx, trc, wordc, ownc)
+    try:
+        mism += coq_judge(ctx, trc, wordc, ownc)
+    except Exception as e:        # e.g. the judges no longer compile against the regenerated bodies: keep the API-level failures
+        mism.append({"what": "the Coq judges (CLaneJudge) could not be evaluated on the recorded transitions",
+                     "detail": str(e)[-1500:]})
     return fails, mism, trc, wordc, ownc, stats
 
 
